@@ -47,6 +47,18 @@ CHECKS = {
    text="DutiesCache.tla models one request as Call, ReadGen, Lookup, Fetch, Deliver, StoreOrAmend, Return for all three duty kinds, with Reorg, InvalidateCache, Trim and caller mutation of returned answers (heap-style identities); TLC exhausts all interleavings over 2-3 validators with none/one/two duties, 2 epochs, up to 3-4 requests with 2 in flight for AnswerEqualsBN, FreshAfterInvalidate, PrivateCopies, CacheSound, CacheFresh, NoDirtyCache, FetchExactlyMissing and DropsAffected; the two as-coded variants (stale store after invalidation, shared slices) must violate their invariants; TLC-generated, seeded random, concurrent and fixed probe schedules are executed on the real eth2wrap.DutiesCache over a gated versioned beacon mock and every trace, including the beacon call log, is validated step by step against the same spec.",
    note="Trusted: TLC; the gated mock as the beacon node; call-before / ret-after event bracketing for concurrent requests; the encoding of model duties in real fields. Exhaustive only within the stated constants; beacon errors and duplicate index lists are not exercised.",
    technique="TLA+ spec (DutiesCache.tla) model-checked with TLC; gated-mock schedules replayed on eth2wrap.DutiesCache; TLC trace validation incl. the beacon call log"),
+ "C06": dict(level=MC, design="6/C06", engine="DutyDB",
+   text="DutyDB.tla transcribes core/dutydb/memory.go for all four keyspaces (attestation with its four inserts and clash rules incl. the committee-0 alias and the pubkey index; proposal; aggregate; sync contribution), both Go map orders of a set, failed stores that leave earlier entries and do not resolve waiters, lazy expiry inside Store; TLC checks UniquePerKey, AnswerKeyed, ExpiredRefused, Prompt, AttIndexed, NeverReplaced, OnlyStored per keyspace and mixed, plus liveness (a resolved or cancelled query returns), with two as-coded controls that must fail; sequential TLC-generated and random schedules and concurrent call/ret histories (3-4 goroutines, linearisation inferred by TLC) are executed on the real MemDB and validated against the spec. The aggregate replace behaviour is the recorded known finding C06-agg-replace (dedicated probe on every run).",
+   note="Trusted: TLC; a scripted deadliner that answers Expired exactly after the schedule expired the duty; model data differ only in the modelled fields; 5 s must-return waits. Pointer aliasing of returned values is C18's subject, answers are compared by content.",
+   technique="TLA+ spec (DutyDB.tla) model-checked with TLC incl. liveness; sequential and concurrent histories replayed on dutydb.MemDB; TLC trace validation; known-finding deviation cfg"),
+ "C08": dict(level=EX, design="6/C08", engine="ThresholdBLS",
+   text="ThresholdBLS.tla writes Shamir sharing and Lagrange recovery over GF(p) out in TLA+ (BLS abstracted in the exponent); TLC proves, for every polynomial, subset and single substitution with p in {5,7,11} and n <= 6, that a combination verifies iff every presented point lies on the polynomial (with the exact count of small-field coincidences) and that two running-index / deserialisation-only control variants fail; TLC enumerates every scenario (n, t, subset, substitution kind/position) for n <= 5 (quick) or n <= 7 (thorough), n = 8..10 sampled; every case is executed on the real herumi tbls package (split, recover, sign, aggregate, verify, tblsconv round trips; map-ranging calls repeated under different insertion orders) and only the observed relations are logged and validated against the model.",
+   note="Trusted: TLC; BLS abstracted in the exponent; small-field coincidences (a 1/p fraction, enumerated exactly by the spec) do not occur in the 255-bit field. Model-based test generation with an algebraic spec oracle.",
+   technique="TLA+ algebra spec (ThresholdBLS.tla) checked and enumerated with TLC; cases executed on real tbls/herumi; TLC validation of observed relations"),
+ "C09": dict(level=EX, design="6/C09", engine="SigAgg",
+   text="SigAgg.tla transcribes core/sigagg/sigagg.go and states the property (GroupValid, NothingOnFault, AllOrNothing, PublishOnOK, ErrMeansNothing); TLC checks the transcription against it exhaustively under the C08 crypto abstraction (controls: verification skipped / partial publication must fail) and enumerates 11 object types x data versions x fork versions x corruption and duplicate scenarios x 1-3 validators; every case is executed on the real aggregator with real objects and real threshold-BLS shares, signing and re-verification follow the spec's own type -> (domain, epoch source) table rather than core's methods, and the recorded relations (published / error, verifies under the group key, content equals the partials' content) are validated in a mode that allows exactly what the statement allows.",
+   note="Trusted: TLC; the spec's domain/epoch table (from the consensus and builder specs); beaconmock as chain configuration; the Lagrange validity fact from C08. A partial carrying other content than it signs is accepted when not first in the list (observation, upstream verification prevents it).",
+   technique="TLA+ case-analysis spec (SigAgg.tla) checked and enumerated with TLC; cases executed on real sigagg with real BLS; TLC validation of observed relations"),
 }
 NA = {
  "C14": "byte-level codec fidelity / crash-freedom on arbitrary bytes: no state machine, interleaving or protocol for a TLA+ specification to enumerate; the family's own guidance places encode/decode fidelity outside its reach (DESIGN.md section 7)",
